@@ -586,11 +586,11 @@ func (m *Mux) serveGRPC(w http.ResponseWriter, r *http.Request) {
 		h.Set("Grpc-Message", encodeGrpcMessage(m))
 	}
 	if p := st.Proto(); p != nil && len(p.Details) > 0 {
-		stBytes, err := proto.Marshal(p)
-		if err != nil {
-			panic(err)
+		// A status that cannot be marshalled (e.g. a message that is not
+		// valid UTF-8) is sent without its details, as grpc-go does.
+		if stBytes, err := proto.Marshal(p); err == nil {
+			h.Set("Grpc-Status-Details-Bin", encodeBinHeader(stBytes))
 		}
-		h.Set("Grpc-Status-Details-Bin", encodeBinHeader(stBytes))
 	}
 	setOutgoingHeader(h, stream.trailer)
 
